@@ -95,11 +95,34 @@ def open_with_flags(ctx, out):
                 n = c.instrument_tracks[ins[0]][dif[3]].note_events[1]
                 obs = [str(n.sustain), n.longest_sustain, n.end_tick]
                 want = [str(ln), ln, 48 + ln]
+                # whatever length the event reports, it is consistent with itself: end tick = tick + longest, end time = time of that tick
+                exu, gi = gen.exact_us(192, [(0, 120000), (96, 60000)], n.end_tick)
+                if n.end_tick != n.tick + n.longest_sustain or abs(impl.us(n.end_timestamp) - exu) > (gi + 1) * TOL:
+                    out.violation("openflags-self-" + fw.h(text), f"open note with flag lines {list(order)}: reports longest sustain {n.longest_sustain} and end tick {n.end_tick}, "
+                                  f"but its end time {impl.us(n.end_timestamp)} µs is not the time of that tick ({float(exu):.1f} µs)", {**rp, "self": True},
+                                  observed=impl.us(n.end_timestamp), promised=float(exu))
+                    continue
                 if obs != want:
                     known = flag_first and ln > 0 and obs == ["0", 0, 48]
                     out.violation("flag-before-open" if known else "openflags-" + fw.h(text),
                                   f"open note written with length {ln} after flag line(s) {list(order)}: sustain/longest/end tick {obs}, written {want}",
                                   rp, observed=obs, promised=want)
+    # a lane written twice at one tick (not a layout the statement describes — nothing is promised about *which* length counts):
+    # the event is still consistent with itself across a tempo change
+    for l1, l2 in ((400, 50), (50, 400), (0, 300), (300, 0)):
+        for extra in ("", "  48 = N 2 50\n"):
+            text = HEAD + f"  48 = N 1 {l1}\n  48 = N 1 {l2}\n" + extra + "  700 = N 2 0\n}\n"
+            c, e, _ = impl.parse(text)
+            out.case("W" + fw.h(text), True, None, tags=["lane-twice"])
+            if c is None:
+                continue
+            n = c.instrument_tracks[ins[0]][dif[3]].note_events[1]
+            exu, gi = gen.exact_us(192, [(0, 120000), (96, 60000)], n.end_tick)
+            if n.end_tick != n.tick + n.longest_sustain or abs(impl.us(n.end_timestamp) - exu) > (gi + 1) * TOL:
+                out.violation("twice-" + fw.h(text), f"lane written twice (lengths {l1}, {l2}): the event reports longest sustain {n.longest_sustain}, end tick {n.end_tick}, "
+                              f"but its end time {impl.us(n.end_timestamp)} µs is not the time of that tick ({float(exu):.1f} µs)",
+                              {"op": "openflags", "text": text, "len": n.longest_sustain, "self": True}, observed=impl.us(n.end_timestamp), promised=float(exu))
+            texts.append((text, {"op": "chart", "text": text, "want": None}))
     # the model must agree with the code on every one of these layouts (the finding included)
     a, b = common.run_charts([(t, None) for t, _ in texts])
     for (t, rp), x, y in zip(texts, a, b):
@@ -158,10 +181,29 @@ def slice(ctx: fw.Ctx) -> fw.Outcome:
         src = gen.rand_src(rng, p)
         src.tracks = [gen.TrackSrc(2, 1, [gen.NoteGroup(0, dict(lanes), tap=len(lanes) > 1)], [], [])]
         cases.append((src, gen.render(src, rng, p)))
+    # mirror chords: the same lane set and the same lengths *in written order*, assigned to the lanes the other way round
+    for la, lb in ((0, 1), (1, 3), (0, 4), (2, 3)):
+        for l1, l2 in ((100, 50), (7, 300)):
+            body = f"  0 = N {la} {l1}\n  0 = N {lb} {l2}\n  768 = N {lb} {l1}\n  768 = N {la} {l2}\n  1536 = N {la} {l1}\n  1536 = N {lb} {l2}\n"
+            text = ("[Song]\n{\n  Resolution = 192\n}\n[SyncTrack]\n{\n  0 = TS 4\n  0 = B 120000\n}\n[Events]\n{\n}\n[ExpertSingle]\n{\n" + body + "}\n")
+            c, e, _ = impl.parse(text)
+            out.case("Mi" + fw.h(text), True, None, tags=["mirror-chords"])
+            if c is None:
+                out.violation("mirror-" + fw.h(text), f"mirror chords raised {impl.err_name(e)}", common.chart_replay(text), observed=impl.err_name(e), promised="parses")
+                continue
+            ins_, dif_ = impl.enums()
+            got = [impl.show_sustain(n.sustain) for n in c.instrument_tracks[ins_[0]][dif_[3]].note_events]
+            def tup(x, y):
+                return "T" + ":".join(str({la: x, lb: y}.get(k, "~")) for k in range(5))
+            want = [tup(l1, l2), tup(l2, l1), tup(l1, l2)]
+            if got != want:
+                out.violation("mirror-" + fw.h(text), f"chords on lanes {la},{lb} written ({l1},{l2}), then the other way round, then again: sustains {got}, written {want}",
+                              {**common.chart_replay(text), "mirror": want}, observed=got, promised=want)
     # empty track
     src = gen.rand_src(rng, p)
     src.tracks = [gen.TrackSrc(1, 2, [], [(0, 5)], [])]
     cases.append((src, gen.render(src, rng, p)))
+    cases += ic.far_cases(rng, ic.prof(garbage=0.0, exotic_pad=0.0, exotic_digits=0.0))  # ticks and lengths beyond 2^53, adjacent ticks
     ic.run(ctx, out, cases, project, lambda tl: [(t["tick"], t["sus"]) for t in tl], "sustain shapes",
            lambda src: any(gen.sustain_truth(g).startswith("T") for tr in src.tracks for g in tr.groups))
     extra_checks(ctx, out, cases)
@@ -177,7 +219,17 @@ def replay(ctx, data):
         ins, dif = impl.enums()
         n = c.instrument_tracks[ins[0]][dif[3]].note_events[1]
         obs = [str(n.sustain), n.longest_sustain, n.end_tick]
+        if data.get("self"):
+            exu, gi = gen.exact_us(192, [(0, 120000), (96, 60000)], n.end_tick)
+            return n.end_tick != n.tick + n.longest_sustain or abs(impl.us(n.end_timestamp) - exu) > (gi + 1) * TOL, [obs, impl.us(n.end_timestamp)]
         return obs != [str(data["len"]), data["len"], 48 + data["len"]], obs
+    if data.get("mirror"):
+        c, e, _ = impl.parse(data["text"])
+        if c is None:
+            return True, impl.err_name(e)
+        ins_, dif_ = impl.enums()
+        got = [impl.show_sustain(n.sustain) for n in c.instrument_tracks[ins_[0]][dif_[3]].note_events]
+        return got != data["mirror"], got
     if data.get("extra"):
         return None, "re-run the slice: end-time checks need the generator structure"
     return ic.replay_chart(data, lambda notes: [[n["tick"], n["sus"]] for n in notes])
